@@ -49,11 +49,30 @@ PROPS = {
                  "unchanged. Non-trivial = non-empty prefix; distinct by case hash."),
         "jobs": [{"run": "^TestC06", "shards": 48, "timeout_quick": 600, "timeout_thorough": 3000}],
     },
+    "C09": {
+        "rule": ("presence-focused generator: structs (nested up to 3 levels) whose fields are pointers to every leaf kind / small structs / "
+                 "slices, the five null types, maps with pointer, null-typed and plain values (default and proto form), plus plain "
+                 "counterparts; values weighted towards present-but-zero pointees (&0, &\"\", &[]T{}, &time.Time{}, &struct{}{}), zero map keys "
+                 "and zero map values; 4 configs. Oracle: nil<=>nil and Valid<=>Valid at every position after a round trip and the pointee equals "
+                 "the normalised pointee; a top-level field occurs in the bytes iff it is present (pointer/null) or non-zero (plain), read with "
+                 "the harness's walker; Descriptor.ExplicitPresence is true exactly for pointer / null-typed fields and map values. "
+                 "Non-trivial = at least one present position whose pointee is zero/empty; distinct by case hash."),
+        "jobs": [{"run": "^TestC09", "shards": 32, "timeout_quick": 600, "timeout_thorough": 3000}],
+    },
+    "C11": {
+        "rule": ("(config x type x 1-3 values) as C01 on a long-lived instance (interning tables / pools with history), input buffers with 0-64 bytes "
+                 "of spare capacity, destination prefixes. Unmarshal: input bytes unchanged; no string / slice / map key reachable in the result "
+                 "has its data inside [buf, buf+cap); the observed result is identical before and after the whole buffer is overwritten and "
+                 "re-used for another Marshal; every earlier result is re-checked after later decodes. Marshal: value unchanged, destination "
+                 "bytes below len unchanged, output shares no address range with any string/slice of the value and does not change when the "
+                 "value's byte slices are overwritten. Non-trivial = result holds >=1 non-empty string or slice; distinct by case hash."),
+        "jobs": [{"run": "^TestC11", "shards": 32, "timeout_quick": 600, "timeout_thorough": 3000}],
+    },
 }
 
 # Properties not (yet) claimed, with the reason. Kept current by hand.
 NOT_APPLICABLE = {p: "check not built yet in this commit (work in progress; the technique applies, see DESIGN.md)" for p in
-                  ["C03", "C04", "C07", "C08", "C09", "C10", "C11", "C12", "C13", "C14", "C15", "C16", "C17", "C19", "C20"]}
+                  ["C03", "C04", "C07", "C08", "C10", "C12", "C13", "C14", "C15", "C16", "C17", "C19", "C20"]}
 
 # commits in /repo that add build-tag-guarded hooks
 HOOK_COMMITS = []
